@@ -708,7 +708,12 @@ namespace svmon
       if (fault_k1 > 0) fault_arm (fault_k1, fault_k2);
       OpResult r;
       marker_set (case_index, op_index, 1);
+      // in a fault run, violations raised online DURING the operation (registry / ledger, e.g. a roll-back handler that
+      // releases a block the allocator never issued) belong to C06 as well
+      const char *run_also = g.also_prop; const char *run_pref = g.also_prefix;
+      if (fault_k1 > 0) { g.also_prop = "C06"; g.also_prefix = ""; }
       dispatch (op, r);
+      g.also_prop = run_also; g.also_prefix = run_pref;
       G ().fault.armed = false;
       marker_set (case_index, op_index, 2);
       if (r.out == OUT_SKIPPED) { --COV ().evaluations; return r.out; }
